@@ -28,13 +28,12 @@ func (c *ShipConnection) handleShipMessage(timeout bool, message []byte) {
 				// wait a bit to let it send
 				<-time.After(500 * time.Millisecond)
 
-				//
-				c.dataWriter.CloseDataConnection(4001, "close")
-				c.infoProvider.HandleConnectionClosed(c, c.getState() == model.SmeStateComplete)
+				// close exactly once, also if a local close is already in progress
+				c.CloseConnection(false, 4001, "close")
 			case model.ConnectionClosePhaseTypeConfirm:
-				// we got a confirmation so close this connection
-				c.dataWriter.CloseDataConnection(4001, "close")
-				c.infoProvider.HandleConnectionClosed(c, c.getState() == model.SmeStateComplete)
+				// we got a confirmation so close this connection,
+				// exactly once also if the local close that announced it is still pending
+				c.CloseConnection(false, 4001, "close")
 			}
 
 			return
